@@ -289,12 +289,7 @@ pub fn run(args: &Args, rec: &mut Recorder) {
                 let Some(module) = doc.project().find_first("MODULE") else {
                     return None;
                 };
-                let mut body = vcommon::doc::Flat {
-                    toks: Vec::new(),
-                    elem_tags: Vec::new(),
-                    elem_span: Vec::new(),
-                    elem_parent: Vec::new(),
-                };
+                let mut body = vcommon::doc::Flat::empty();
                 for c in &module.children {
                     match c {
                         Child::Elem(e) => vcommon::doc::flatten_elem(e, 0, u32::MAX, true, false, &mut body),
